@@ -108,10 +108,12 @@ def c_cfg(cfg):
         # --wip: the expression in force is (--tags ...) and wip; the run stops at the first failure
         expr = ["has", "wip"] if expr is None else ["and", (expr[2] if expr[0] == "raw" else expr), ["has", "wip"]]
         stop = True
-    return "(mkCfgData %s %s %s %s %s %s %s %s %s)" % (
+    # exclude_tag: the before_feature hook calls element.skip() on every element carrying that tag (model: c_excl)
+    excl = "(Some %s)" % cnat(tag_id(cfg["exclude_tag"])) if cfg.get("exclude_tag") else "None"
+    return "(mkCfgData %s %s %s %s %s %s %s %s %s %s)" % (
         cbool(cfg.get("dry_run")), cbool(stop), cbool(cfg.get("show_skipped")),
         c_expr(expr), clist([HOOK_COQ[h] for h in cfg.get("hooks", [])], "hookname"),
-        faults, hcs, cnat(WIP), cbool(cfg.get("continue_after_failed", False)))
+        faults, hcs, cnat(WIP), cbool(cfg.get("continue_after_failed", False)), excl)
 
 
 def c_program(prog):
@@ -187,14 +189,12 @@ def c_event(e):
 def c_output(obs):
     return "(%s, %s, %s, %s)" % (clist([c_feat_res(t) for t in obs["tree"]], "feat_res"),
                                  cbool(obs["failed"]), cbool(obs["aborted"]),
-                                 clist([c_event(e) for e in obs["log"]], "event"))
+                                 clist([c_event(e) for e in obs["log"] if e[0] != "excluded"], "event"))
 
 
 def enc(prog, obs):
     if obs.get("crashed") or obs.get("failed") is None:
         return None
-    if any(e[0] == "excluded" for e in obs["log"]):
-        return None         # elements excluded by a hook calling .skip(): not in the Coq model (oracle only, props/c09.py)
     return c_program(prog), c_output(obs)
 
 
